@@ -24,6 +24,7 @@ var histAlphabet = []string{
 	"BDAT", "BDAT-last", "BDAT-0-last", "BDAT-0", "BDAT-bad", "BDAT-last-reject",
 	"RSET", "NOOP", "VRFY", "AUTH", "STARTTLS", "QUIT-mid", "XYZZY", "HELP", "EMPTY",
 	"CTRL-verb", "CTRL-helo", "CTRL-mail", "CTRL-rcpt", "BINARY",
+	"AUTH-ir", "AUTH-2step", "AUTH-cancel", "AUTH-bad64",
 }
 
 var ctrlOctets = []string{"\r", "\x00", "\x01", "\x07", "\x7f", "\x1b", "\t", "\x80"}
@@ -58,6 +59,25 @@ func genHistory(t *Tape, sc *Scenario, prop string) *histX {
 			dp.ParkBefore = Dur(1+t.Intn(2000)) * time.Microsecond
 		}
 		cp.Data = append(cp.Data, dp)
+	}
+	if t.Chance(1, 4) {
+		// a backend with AUTH support: the 334 intermediate replies become reachable
+		if sc.BE.Flavor == beLMTP {
+			sc.BE.Flavor = beLMTPAuth
+		} else {
+			sc.BE.Flavor = beAuth
+		}
+		sc.Srv.InsecureAuth = true
+		ap := &AuthPlan{Mechs: []string{"SIMPLE"}}
+		for i, n := 0, t.Intn(3); i < n; i++ {
+			ap.Steps = append(ap.Steps, SaslStep{Challenge: []byte(fmt.Sprintf("challenge-%d", i))})
+		}
+		if t.Chance(1, 4) {
+			ap.Steps = append(ap.Steps, SaslStep{Fail: true})
+		} else {
+			ap.Steps = append(ap.Steps, SaslStep{Done: true})
+		}
+		cp.Auth = ap
 	}
 	sc.BE.Conns = []ConnBackendPlan{cp}
 
@@ -231,6 +251,23 @@ func genHistory(t *Tape, sc *Scenario, prop string) *histX {
 			add(kVrfy, "VRFY someone")
 		case "AUTH":
 			add(kAuth, "AUTH PLAIN AGZvbwBiYXI=")
+		case "AUTH-ir", "AUTH-2step", "AUTH-cancel", "AUTH-bad64":
+			if sym == "AUTH-ir" {
+				add(kAuth, "AUTH SIMPLE aW5pdGlhbA==")
+			} else {
+				add(kAuth, "AUTH SIMPLE")
+				contLine := map[string]string{"AUTH-2step": "cmVzcG9uc2U=", "AUTH-cancel": "*", "AUTH-bad64": "!!!not base64!!!"}[sym]
+				st := Step{Kind: kAuthResp, Data: []byte(contLine + "\r\n"), Wait: w}
+				if lock {
+					st.Need = 334
+				}
+				steps = append(steps, st)
+			}
+			if lock {
+				// a lock-step client that is still being challenged gives up, so that
+				// the next command is not taken for a SASL response
+				steps = append(steps, Step{Kind: kAuthResp, Data: []byte("*\r\n"), Need: 334, Wait: 1}, Step{Kind: kAuthResp, Data: []byte("*\r\n"), Need: 334, Wait: 1})
+			}
 		case "STARTTLS":
 			add(kStartTLS+100, "STARTTLS") // TLS is not configured in these histories: an ordinary refused command
 			steps[len(steps)-1].Kind = kGarbage
@@ -555,6 +592,10 @@ func classifyHist(sc *Scenario, h *History, st *Stats) string {
 		if e.Kind == "NewSession" && e.Res != "" {
 			st.Probes["newsession_failed"]++
 		}
+		if e.Kind == "SaslNext" && strings.HasPrefix(e.Opts, "challenge") {
+			st.Probes["auth_exchange_with_334_inside_history"]++
+			break
+		}
 	}
 	if h.Conns[0].SrvCloseSeq >= 0 && !x.Quit {
 		st.Probes["server_closed_without_quit"]++
@@ -570,7 +611,7 @@ func init() {
 	histStub := []string{"net.Listener (SimListener)", "net.Conn (SimConn)", "Backend/Session (SimBackend: verdicts derived from addresses and message content, slow returns)", "clock (synctest)", "SMTP client (raw driver)"}
 	register(&Property{
 		ID: "C03", Level: "exploration",
-		Rule:     "command histories of 1-25 commands over a 42-symbol abstract alphabet (valid / backend-rejected / malformed / out-of-order forms of HELO EHLO LHLO MAIL RCPT DATA BDAT RSET NOOP VRFY AUTH STARTTLS QUIT and unknown), three quarters drawn from a state-biased walk and one quarter uniformly; SMTP/LMTP, MaxRecipients 0/2, NewSession failures, slow Data returns so that aborted deliveries overlap what follows; lock-step, single write, or arbitrary segmentation. A reference envelope machine is advanced by the observed replies; backend callbacks are placed between replies by the number of octets the server had written when they began. Non-trivial: >= 3 commands; distinct by (symbol sequence, discipline, mode, limits, backend flavour).",
+		Rule:     "command histories of 1-25 commands over a 46-symbol abstract alphabet (valid / backend-rejected / malformed / out-of-order forms of HELO EHLO LHLO MAIL RCPT DATA BDAT RSET NOOP VRFY AUTH STARTTLS QUIT and unknown), three quarters drawn from a state-biased walk and one quarter uniformly; SMTP/LMTP, MaxRecipients 0/2, NewSession failures, slow Data returns so that aborted deliveries overlap what follows; lock-step, single write, or arbitrary segmentation. A reference envelope machine is advanced by the observed replies; backend callbacks are placed between replies by the number of octets the server had written when they began. Non-trivial: >= 3 commands; distinct by (symbol sequence, discipline, mode, limits, backend flavour).",
 		Gen:      genC03,
 		Check:    checkC03,
 		Classify: classifyHist,
@@ -587,7 +628,7 @@ func init() {
 		},
 		Real: histReal, Stub: histStub,
 		Assumptions: []string{"a second MAIL inside a transaction and the placement of VRFY/NOOP are not judged", "'signalled by Reset' is judged as: at least one Reset between a transaction end and the next envelope callback"},
-		Required:    []string{"stale_delivery_overlaps_next_transfer", "newsession_failed", "several_messages_in_one_history"},
+		Required:    []string{"stale_delivery_overlaps_next_transfer", "newsession_failed", "several_messages_in_one_history", "auth_exchange_with_334_inside_history"},
 		QuickRuns:   250000, ThoroughRuns: 6000000,
 	})
 }
